@@ -12,6 +12,12 @@ import (
 
 	"github.com/hashicorp/serf/cmd/serf/command/agent"
 
+	"github.com/hashicorp/cli"
+	"github.com/hashicorp/logutils"
+	"github.com/hashicorp/serf/client"
+	"net"
+	"regexp"
+	"strconv"
 	"verif/harness/evid"
 )
 
@@ -183,6 +189,161 @@ func (h *c29Handler) snapshot() []string {
 	h.mu.Lock()
 	defer h.mu.Unlock()
 	return append([]string(nil), h.seen...)
+}
+
+// c29RealAgent: the agent as `serf agent` starts it (Command.Run: its own ring buffer, IPC listener
+// and monitor streams, loopback TCP), log level DEBUG. n user events are sent through the RPC
+// interface (one uniquely numbered log line each), the log goes quiet, a monitor attaches, goes
+// quiet, then m more events follow. What the monitor received must be: the most recent buffered
+// lines, oldest first, ending with the newest line written before it attached (whatever the buffer
+// size is), and then every later line once - i.e. the numbered lines it saw are a gap-free,
+// duplicate-free, increasing run that ends with the very last event.
+func c29RealAgent(n, m int) (viol string, stats map[string]int, inconclusive string) {
+	stats = map[string]int{}
+	freePort := func() int {
+		l, err := net.Listen("tcp", "127.0.0.1:0")
+		if err != nil {
+			return 0
+		}
+		defer l.Close()
+		return l.Addr().(*net.TCPAddr).Port
+	}
+	bind, rpc := freePort(), freePort()
+	if bind == 0 || rpc == 0 {
+		return "", stats, "no free loopback port"
+	}
+	shutdown := make(chan struct{})
+	ui := cli.NewMockUi()
+	cmd := &agent.Command{Ui: ui, ShutdownCh: shutdown}
+	done := make(chan int, 1)
+	go func() {
+		done <- cmd.Run([]string{"-bind", fmt.Sprintf("127.0.0.1:%d", bind), "-rpc-addr", fmt.Sprintf("127.0.0.1:%d", rpc), "-node", fmt.Sprintf("c29-%d", bind), "-log-level", "debug"})
+	}()
+	defer func() {
+		close(shutdown)
+		select {
+		case <-done:
+		case <-time.After(30 * time.Second):
+		}
+	}()
+	var cl *client.RPCClient
+	var err error
+	for i := 0; i < 200; i++ {
+		cl, err = client.NewRPCClient(fmt.Sprintf("127.0.0.1:%d", rpc))
+		if err == nil {
+			break
+		}
+		select {
+		case rc := <-done:
+			done <- rc
+			return "", stats, fmt.Sprintf("agent exited with %d before its RPC port opened: %s", rc, c10Trunc(ui.ErrorWriter.String(), 300))
+		default:
+		}
+		time.Sleep(50 * time.Millisecond)
+	}
+	if err != nil {
+		return "", stats, "cannot connect to the agent: " + err.Error()
+	}
+	defer cl.Close()
+	send := func(from, to int) string {
+		for i := from; i < to; i++ {
+			if err := cl.UserEvent(fmt.Sprintf("c29ev-%06d", i), nil, false); err != nil {
+				return err.Error()
+			}
+		}
+		return ""
+	}
+	if e := send(0, n); e != "" {
+		return "", stats, "user event: " + e
+	}
+	time.Sleep(300 * time.Millisecond)
+	logCh := make(chan string, 1<<16)
+	var mu sync.Mutex
+	var got []int
+	lines := 0
+	lastAt := time.Now()
+	re := regexp.MustCompile(`Requesting user event send: c29ev-(\d{6})\.`)
+	stopRead := make(chan struct{})
+	readDone := make(chan struct{})
+	go func() {
+		defer close(readDone)
+		for {
+			select {
+			case l := <-logCh:
+				mu.Lock()
+				lines++
+				lastAt = time.Now()
+				if mm := re.FindStringSubmatch(l); mm != nil {
+					k, _ := strconv.Atoi(mm[1])
+					got = append(got, k)
+				}
+				mu.Unlock()
+			case <-stopRead:
+				return
+			}
+		}
+	}()
+	h, err := cl.Monitor(logutils.LogLevel("DEBUG"), logCh)
+	if err != nil {
+		close(stopRead)
+		return "", stats, "monitor: " + err.Error()
+	}
+	idle := func(max time.Duration) {
+		deadline := time.Now().Add(max)
+		for time.Now().Before(deadline) {
+			mu.Lock()
+			q := time.Since(lastAt)
+			mu.Unlock()
+			if q > 400*time.Millisecond {
+				return
+			}
+			time.Sleep(50 * time.Millisecond)
+		}
+	}
+	idle(20 * time.Second)
+	mu.Lock()
+	backlog := append([]int(nil), got...)
+	stats["backlog_lines_received"] = lines
+	mu.Unlock()
+	if e := send(n, n+m); e != "" {
+		close(stopRead)
+		return "", stats, "user event: " + e
+	}
+	// wait for the very last event's line (watchdog: inconclusive)
+	deadline := time.Now().Add(30 * time.Second)
+	for {
+		mu.Lock()
+		seenLast := len(got) > 0 && got[len(got)-1] == n+m-1
+		mu.Unlock()
+		if seenLast || time.Now().After(deadline) {
+			break
+		}
+		time.Sleep(20 * time.Millisecond)
+	}
+	idle(5 * time.Second)
+	_ = cl.Stop(h)
+	close(stopRead)
+	<-readDone
+	stats["events_before_attach"], stats["events_after_attach"] = n, m
+	stats["numbered_backlog_lines"] = len(backlog)
+	stats["numbered_lines_received"] = len(got)
+	if len(got) == 0 || got[len(got)-1] != n+m-1 {
+		return "", stats, fmt.Sprintf("the line of the last event never reached the monitor (received %d numbered lines)", len(got))
+	}
+	if n > 0 {
+		if len(backlog) == 0 {
+			return fmt.Sprintf("%d events were logged before the monitor attached; it received none of their lines (%d backlog lines in all)", n, stats["backlog_lines_received"]), stats, ""
+		}
+		if backlog[len(backlog)-1] != n-1 {
+			return fmt.Sprintf("%d events were logged before the monitor attached; the replay it received covers events %d..%d of them: the most recent lines (up to event %d) are missing", n, backlog[0], backlog[len(backlog)-1], n-1), stats, ""
+		}
+	}
+	for i := 1; i < len(got); i++ {
+		if got[i] != got[i-1]+1 {
+			return fmt.Sprintf("the monitor (attached after %d events, %d more followed) received the line of event %d right after that of event %d: not every line exactly once and in order (replay covered %d..%d)", n, m, got[i], got[i-1], backlog[0], backlog[len(backlog)-1]), stats, ""
+		}
+	}
+	return "", stats, ""
 }
 
 func TestC29(t *testing.T) {
@@ -515,7 +676,27 @@ func TestC29(t *testing.T) {
 	if r.Counter("held_rounds_with_flush_blocked_mid_drain") == 0 {
 		r.Inconclusive("Flush was never held mid-drain")
 	}
-	r.Finish("gate/free: 2-8 writers x 5-44 unique lines racing one Flush issued after a random number of writes; gate/held: 1-6 pre-gate writers finish, Flush is blocked inside the underlying writer on the first drained line, 1-4 late writers start, then the writer is released; monitor: ring of 1..512 lines, sequential prefix, 1-6 concurrent writers, one handler attached from the start (witness) and one attached after a random number of writes. distinct = round shapes (writers, lines, #before-flush, #after-open / attachment point) of rounds that had lines on both sides of the gate opening / attachment",
+	// ---------------- the agent as the command starts it
+	r.Cases("agent", r.N(6, 60), 3, func(ci int, rng *rand.Rand) {
+		n := []int{0, 40, 300, 700, 1300, 2500}[rng.Intn(6)]
+		m := 5 + rng.Intn(60)
+		viol, stats, inc := c29RealAgent(n, m)
+		r.Eval(1)
+		for k, v := range stats {
+			r.Count("agent_"+k, v)
+		}
+		if inc != "" {
+			r.Inconclusive(fmt.Sprintf("agent case %d: %s", ci, inc))
+			return
+		}
+		if n > 0 {
+			r.Distinct(fmt.Sprintf("agent/%d/%d", n, m))
+		}
+		if viol != "" {
+			r.Violation("agent-monitor", ci, viol, map[string]any{"events_before_attach": n, "events_after_attach": m})
+		}
+	})
+	r.Finish("gate/free: 2-8 writers x 5-44 unique lines racing one Flush issued after a random number of writes; gate/held: 1-6 pre-gate writers finish, Flush is blocked inside the underlying writer on the first drained line, 1-4 late writers start, then the writer is released; monitor: ring of 1..512 lines, sequential prefix, 1-6 concurrent writers, one handler attached from the start (witness) and one attached after a random number of writes; agent: the real `serf agent` command on loopback TCP at log level DEBUG, 0-2500 numbered user events through RPC, then a monitor attaches (client.Monitor), then 5-64 more events: the numbered lines it receives must be a gap-free run ending with the newest line before the attachment and then every later line. distinct = round shapes (writers, lines, #before-flush, #after-open / attachment point) of rounds that had lines on both sides of the gate opening / attachment",
 		r.N(500, 10000),
 		"the race detector must be on (check.sh mode=race); reports inside the agent package are attributed by check.sh",
 		"empty log lines are not generated (the log package never emits them)",
